@@ -435,12 +435,18 @@ func runConfig(c *ctx) {
 			drv := "?"
 			self, _ := os.Executable()
 			cmd := exec.Command(self, "-out", "-", "config-drv", path)
-			if b, err := cmd.Output(); err == nil {
-				for _, ln := range strings.Split(string(b), "\n") {
-					if strings.HasPrefix(ln, "DRV ") {
-						drv = strings.TrimPrefix(ln, "DRV ")
-					}
+			var eb strings.Builder
+			cmd.Stderr = &eb
+			b, err := cmd.Output()
+			for _, ln := range strings.Split(string(b), "\n") {
+				if strings.HasPrefix(ln, "DRV ") {
+					drv = strings.TrimPrefix(ln, "DRV ")
 				}
+			}
+			if err != nil || drv == "?" {
+				// the start-up code itself went down (panic / fatal): an observation about go-upf, not a harness error
+				first := strings.SplitN(strings.TrimSpace(eb.String()), "\n", 2)[0]
+				drv = "crash:" + strings.ReplaceAll(first, " ", "_")
 			}
 			return fmt.Sprintf("read=ok drv=%s vals=%s", drv, vals)
 		})
